@@ -4,6 +4,7 @@ import (
 	. "github.com/glyphlang/glyph/pkg/ast"
 
 	"fmt"
+	"sort"
 	"strings"
 )
 
@@ -432,8 +433,16 @@ func (i *Interpreter) executeFor(stmt ForStatement, env *Environment) (interface
 			}
 		}
 	} else if obj, ok := iterable.(map[string]interface{}); ok {
-		// Iterate over object/map
-		for key, value := range obj {
+		// Iterate over object/map in key order: Go's map order is random, so
+		// ranging over the map directly made the result of a program (order of
+		// effects, which element a break/return sees first) vary between runs.
+		keys := make([]string, 0, len(obj))
+		for key := range obj {
+			keys = append(keys, key)
+		}
+		sort.Strings(keys)
+		for _, key := range keys {
+			value := obj[key]
 			// Create a fresh environment for each iteration
 			loopEnv := NewChildEnvironment(env)
 
